@@ -275,12 +275,22 @@ def find_tasks_in_param(param_value: Any, searched_coll_ids: Optional[set[int]] 
     raise TaskError(msg)
 
 
+def get_direct_dependency_instances(task: Task) -> list[Task]:
+    """Return every task object that is a direct (first-level)
+    dependency of the given task in its attributes. Dependencies that
+    are equal may be present as several distinct objects, and each of
+    them needs to be given access to results."""
+    return [
+        dependency_task
+        for field in fields(task)
+        for dependency_task in find_tasks_in_param(getattr(task, field.name))
+    ]
+
+
 def get_direct_dependencies(task: Task) -> OrderedSet[Task]:
     """Return an OrderedSet of tasks that are direct (first-level)
     dependencies of the given task in its attributes."""
     dependency_tasks: OrderedSet[Task] = OrderedSet()
-    for field in fields(task):
-        field_value = getattr(task, field.name)
-        for dependency_task in find_tasks_in_param(field_value):
-            dependency_tasks.add(dependency_task)
+    for dependency_task in get_direct_dependency_instances(task):
+        dependency_tasks.add(dependency_task)
     return dependency_tasks
